@@ -171,6 +171,16 @@ CHECKS = {
              "Since FFT images are produced by the real tGswToFFTConvert from the coefficient-domain samples, agreement of both variants with the same model shows the FFT key is a faithful image.",
         note="The noisy-row clause (statistical bound) is observed through the gate-output statistics of C02, not here. Exactness relies on LL*BGB = W in the replay instances (no truncation).",
         design="§6 C09"),
+    "C10": dict(
+        category="exploration",
+        technique="TLA+ spec FFTLagrange (register machine whose Lagrange registers denote exact integer polynomials with an error budget); TLC-generated programs executed on each back-end and validated step by step by TLC (Trace_FFT); "
+                  "dense input families validated against tolerances that are specification constants (Table_C10)",
+        text="TLC generates random programs over the ten Lagrange-domain operations (both inverse transforms, forward transform, clear, add, multiply, multiply-add, multiply-subtract, set/add torus constant) from the specification; each program runs on all five back-ends "
+             "through the embeddings and TLC replays it on the model, requiring every forward transform to return the register's exact content mod 2^32 within the register's budget (1 unit per round trip, 2 per product) and nothing outside the embedded sub-ring. "
+             "For the dense families the property names (B in {1,2^6,2^9,2^15,2^20} x integer families x torus families incl. all INT32_MAX and alternating INT32_MIN/MAX) the FFT product, multiply-accumulate, multiply-subtract, the inverse/forward round trip and two Lagrange-domain "
+             "compositions are compared with the library's exact Karatsuba routine (bound to the ring definition by C11); TLC accepts a row iff every deviation is within FftTol(B) = 2 (1 for the round trip), growing as 2B/2^9 above 2^9. Each dense case runs in its own child so that an assertion of a debug build is itself an observation.",
+        note="Exploration level: inputs are sampled families, and why a kernel achieves 2 units is numerical analysis outside TLA+. Found and repaired: D7 (spqlios-avx SubMul register typo). Recorded finding D6: debug builds of the nayuki back-ends abort in check_alternate_real on large-magnitude inputs (see known-findings.txt).",
+        design="§6 C10"),
 }
 
 HOOK_COMMITS = ["f8e83e6", "cb256e3"]
